@@ -1,2 +1,202 @@
-(* C02: theorems follow (no-wedge invariants); the monitor is tied on every run *)
-From QV Require Import Lib.Tac Sys.Trace Sys.MonC02.
+(** C02 — Connections make progress: no deadlock under fair loss.
+    No-wedge invariants (safety), proved for ALL operation sequences of the models
+    Model/Recovery.v (loss-detection / PTO timer, from connection/mod.rs, packet_builder.rs,
+    spaces.rs, paths.rs, timer.rs) and Model/SendGate.v (blocking branches of poll_transmit).
+    The models are tied to the real code on every run by the trace monitors Sys/MonRecovery.v
+    (these invariants, evaluated on probe snapshots of real connections after every drive) and
+    Sys/MonC02.v (completion of event-driven workloads under fair loss).
+    Proofs: Proofs/RecoveryProofs.v, Proofs/SendGateProofs.v.
+    [Recovery.step maxexp fixd]: [fixd = true] is the tree with the repair "re-evaluate the loss
+    detection timer when the handshake completes / after a Retry" (repo commit `fix: re-evaluate
+    the loss detection timer ...`); [fixd = false] is the code before it, for which the property
+    is refuted below. *)
+From QV Require Import Lib.Tac Lib.Corr Sys.Trace Sys.MonC02 Sys.MonRecovery.
+From QV Require Import Model.SendGate Model.Recovery Proofs.RecoveryProofs Proofs.SendGateProofs.
+From QV Require gen.Constants.
+Open Scope Z_scope.
+
+Definition MAXEXP : Z := Constants.MAX_BACKOFF_EXPONENT.
+
+(** ** timer_armed_when_needed
+    In every reachable open state that is not in the middle of processing a datagram which
+    arrived while the path was anti-amplification blocked: if the path is not blocked and the
+    timer is needed ([needs_b]: a loss time is pending; or ack-eliciting packets are in flight
+    and one of them is in the Initial or Handshake space, or in the Data space once the handshake
+    is complete; or nothing is in flight and the client has no proof that the server validated its
+    address), LossDetection is armed — the only exception being a connection that has not sent
+    anything yet. Proved for ALL operation sequences. *)
+Theorem C02_timer_armed_when_needed : forall cl v ops,
+  let s := Recovery.run MAXEXP true (init cl v) ops in
+  closed s = false -> in_dgram s <> Some true -> blocked s 1 = false -> needs_b s = true ->
+  is_some (ld s) = true \/ (stale s = true /\ ld s = None /\ ae_total s = 0).
+Proof. exact (timer_armed_fixed MAXEXP). Qed.
+Print Assumptions C02_timer_armed_when_needed.
+
+(** The same with the readable condition [needs] (per-space counts instead of the boolean
+    [needs_b]). FULL statement: for all reachable states. PROVED PART: for reachable states that
+    satisfy the bookkeeping well-formedness [wf] (counts non-negative, a space with ack-eliciting
+    packets in flight has a last-send time, in flight implies keys, key/highest-space coupling);
+    missing: [wf] is an invariant of [step] (proof in progress: tools_b2/RecoveryWf.v.wip). *)
+Definition C02_timer_armed_readable_full : Prop := forall cl v ops,
+  let s := Recovery.run MAXEXP true (init cl v) ops in
+  closed s = false -> in_dgram s <> Some true -> blocked s 1 = false -> needs s ->
+  is_some (ld s) = true \/ (stale s = true /\ ld s = None /\ ae_total s = 0).
+Theorem C02_timer_armed_readable_partial : forall cl v ops,
+  let s := Recovery.run MAXEXP true (init cl v) ops in
+  wf s ->
+  closed s = false -> in_dgram s <> Some true -> blocked s 1 = false -> needs s ->
+  is_some (ld s) = true \/ (stale s = true /\ ld s = None /\ ae_total s = 0).
+Proof.
+  intros cl v ops s W A B C D. apply (timer_armed_fixed MAXEXP); try assumption.
+  apply needs_needs_b; assumption.
+Qed.
+Print Assumptions C02_timer_armed_readable_partial.
+
+(** ... and if the path IS blocked, receipt of any datagram re-arms it, whatever the datagram
+    contained (the [was_anti_amplification_blocked] branch of handle_event) *)
+Theorem C02_datagram_rearms : forall fixd s c,
+  in_dgram s = Some true ->
+  let s' := Recovery.step MAXEXP fixd s (ODgramEnd c) in
+  in_dgram s' = None /\
+  (closed s' = false -> blocked s' 1 = false -> needs_b s' = true -> is_some (ld s') = true).
+Proof. exact (dgram_end_rearms MAXEXP). Qed.
+Print Assumptions C02_datagram_rearms.
+
+(** The code before the repair: the invariant only holds up to the ghost flag [stale] (the state
+    became Established, or a Retry dropped the 0-RTT packets, after the last evaluation of the
+    timer) ... *)
+Theorem C02_timer_armed_unrepaired : forall cl v ops,
+  let s := Recovery.run MAXEXP false (init cl v) ops in
+  closed s = false -> in_dgram s <> Some true -> blocked s 1 = false -> needs_b s = true ->
+  is_some (ld s) = true \/ stale s = true.
+Proof. exact (timer_inv_reachable MAXEXP false). Qed.
+Print Assumptions C02_timer_armed_unrepaired.
+
+(** ... and it is REFUTED: a server whose Handshake flight was acknowledged and which has a
+    1-RTT packet in flight completes the handshake and is left Established, validated, with an
+    ack-eliciting packet in flight and NO loss-detection timer. (Replayed on the real code: the
+    simulator scenario in known_findings.txt; found by Sys/MonRecovery on ordinary traces.) *)
+Definition clk (t : Z) : clock := mkClock t 30000 0.
+Definition wedge_ops : list op :=
+  [ODgramBegin; OKeys 1; OKeys 2; ORecvd 1200; ODgramEnd (clk 0);
+   OSent (clk 0) 0 true true; OSent (clk 0) 1 true false; OSent (clk 0) 2 true false; OTxDone 1200;
+   ODgramBegin; ORecvd 1200; OValidated; ODiscard (clk 20000) 0; OAck (clk 20000) 1 1 0 0 0 None;
+   OEstablished (clk 20000) false; ODgramEnd (clk 20000)].
+Theorem C02_timer_armed_unrepaired_refuted :
+  exists ops, let s := Recovery.run MAXEXP false (init false false) ops in
+    closed s = false /\ in_dgram s = None /\ blocked s 1 = false /\ phase s = 1 /\
+    0 < ae (sD s) /\ needs_b s = true /\ ld s = None.
+Proof. exists wedge_ops. vm_compute. repeat split; reflexivity. Qed.
+Print Assumptions C02_timer_armed_unrepaired_refuted.
+Example C02_same_history_repaired_is_armed :
+  ld (Recovery.run MAXEXP true (init false false) wedge_ops) = Some 30000.
+Proof. vm_compute. reflexivity. Qed.
+
+(** ** pto_yields_probe
+    Firing LossDetection with no loss time pending: the space chosen by pto_time_and_space gets
+    1 or 2 probes, pto_count grows, and that space has keys — except for the anti-deadlock probe of
+    a client that already holds 1-RTT keys and has dropped its Initial keys (it is then about to
+    send its Finished in the Handshake space; the stray Initial probe is never used). *)
+Definition C02_pto_yields_probe_full : Prop := forall cl v ops c t i,
+  let s := Recovery.run MAXEXP true (init cl v) ops in
+  pto_time_and_space MAXEXP c s = Some (t, i) -> loss_time_and_space s = None ->
+  let s' := on_ld_timeout MAXEXP c s 0 0 None in
+  0 < probes (sp s' i) /\ pto_count s' = pto_count s + 1 /\
+  (sendable s' i = true \/ (ae_total s = 0 /\ highest s = 2 /\ keys (sI s) = false)).
+(** PROVED PART: for every state satisfying [wf] (see above; missing: [wf] for all reachable states) *)
+Theorem C02_pto_yields_probe_partial : forall s c t i,
+  wf s -> pto_time_and_space MAXEXP c s = Some (t, i) -> loss_time_and_space s = None ->
+  let s' := on_ld_timeout MAXEXP c s 0 0 None in
+  probes (sp s' i) = probes (sp s i) + (if ae_total s =? 0 then 1 else 2) /\
+  0 < probes (sp s' i) /\ pto_count s' = pto_count s + 1 /\
+  (sendable s' i = true \/ (ae_total s = 0 /\ highest s = 2 /\ keys (sI s) = false)).
+Proof. intros s c t i. exact (pto_fire_probes MAXEXP c s t i). Qed.
+Print Assumptions C02_pto_yields_probe_partial.
+(* non-vacuity: a server's PTO after its first flight gives the Initial space two probes *)
+Example C02_ex_pto_fires :
+  let s := Recovery.run MAXEXP true (init false false)
+             [ODgramBegin; OKeys 1; OKeys 2; ORecvd 1200; ODgramEnd (clk 0);
+              OSent (clk 0) 0 true true; OSent (clk 0) 1 true false; OTxDone 2400] in
+  pto_time_and_space MAXEXP (clk 30000) s = Some (30000, 0) /\
+  let s' := Recovery.step MAXEXP true s (OTimeout (clk 30000) 0 0 None) in
+  probes (sI s') = 2 /\ pto_count s' = 1 /\ ld s' = Some 60000.
+Proof. vm_compute. repeat split; reflexivity. Qed.
+
+(** [SendGate] with probes pending never answers blocked-by-congestion (nor blocked-by-pacing),
+    and sends when there is anti-amplification budget *)
+Theorem C02_probe_not_congestion_blocked : forall g, 0 < g_probes g ->
+  gate g <> BlockedCongestion /\ (forall d, gate g <> BlockedPacing d).
+Proof. exact probe_not_blocked. Qed.
+Print Assumptions C02_probe_not_congestion_blocked.
+Theorem C02_probe_sends : forall g, 0 < g_probes g -> g_can_send g = true -> g_antiamp g = false ->
+  gate g = Sends /\ probes_after g = g_probes g - 1.
+Proof. exact probe_sends. Qed.
+Print Assumptions C02_probe_sends.
+(** the mutant gate (congestion check also with probes pending) is distinguished *)
+Example C02_probe_exemption_matters :
+  let g := mkGate true false true 2 false 12000 1200 12000 None in
+  gate g = Sends /\ gate_no_probe_exemption g = BlockedCongestion.
+Proof. vm_compute. split; reflexivity. Qed.
+
+(** blocked by pacing arms Timer::Pacing; under the pacer contract the deadline is in the future.
+    The contract [now < deadline] is NOT guaranteed by Pacer::delay (pacing.rs returns
+    [now + (unscaled_delay / 5) * 4], which is [now] when the deficit is tiny): it stays a premise. *)
+Theorem C02_pacing_deadline_in_future : forall g prev d now,
+  gate g = BlockedPacing d -> (forall x, g_delay g = Some x -> now < x) ->
+  pacing_after g prev = Some d /\ now < d.
+Proof. exact pacing_arms. Qed.
+Print Assumptions C02_pacing_deadline_in_future.
+
+(** something ready is either sent or held back by one of the three named blocks *)
+Theorem C02_ready_sends_or_named_block : forall g, g_can_send g = true ->
+  gate g = Sends \/ gate g = BlockedAntiAmp \/ gate g = BlockedCongestion \/ exists d, gate g = BlockedPacing d.
+Proof. exact ready_sends_or_named_block. Qed.
+Print Assumptions C02_ready_sends_or_named_block.
+
+(** ** pto_backoff_bounded
+    PTO duration = (pto_base [+ max_ack_delay in the Data space]) * 2^min(pto_count, MAX_BACKOFF_EXPONENT):
+    positive, bounded, counted from the last ack-eliciting send of the chosen space (or from now
+    for the anti-deadlock probe). *)
+Theorem C02_pto_backoff_bounded : forall c s t i,
+  0 <= pto_count s -> 0 < base c -> 0 <= mad c ->
+  pto_time_and_space MAXEXP c s = Some (t, i) ->
+  let d := (base c + (if i =? 2 then mad c else 0)) * 2 ^ Z.min (pto_count s) MAXEXP in
+  0 < d <= (base c + mad c) * 2 ^ MAXEXP /\
+  ((ae_total s = 0 /\ t = now c + d) \/
+   (ae_total s <> 0 /\ exists t0, tlae (sp s i) = Some t0 /\ t = t0 + d)).
+Proof. intros c s t i. apply pto_backoff. vm_compute. discriminate. Qed.
+Print Assumptions C02_pto_backoff_bounded.
+
+(** ** Non-vacuity *)
+(* a client sends its Initial: timer armed at send time + pto_base *)
+Example C02_ex_client_first_flight :
+  let s := Recovery.run MAXEXP true (init true false) [OSent (clk 0) 0 true true; OTxDone 1200] in
+  needs_b s = true /\ blocked s 1 = false /\ ld s = Some 30000.
+Proof. vm_compute. repeat split; reflexivity. Qed.
+(* a server reaches the 3x limit: timer stopped; any datagram re-arms it *)
+Definition blocked_ops : list op :=
+  [ODgramBegin; OKeys 1; OKeys 2; ORecvd 1200; ODgramEnd (clk 0);
+   OSent (clk 0) 0 true true; OSent (clk 0) 1 true false; OTxDone 2400;
+   OTimeout (clk 30000) 0 0 None; OGate (clk 30000) 0 true true false 2400 1200 12000 None;
+   OSent (clk 30000) 0 true true; OTxDone 1200; OTimeout (clk 60000) 0 0 None].
+Example C02_ex_blocked_then_rearmed :
+  let s := Recovery.run MAXEXP true (init false false) blocked_ops in
+  blocked s 1 = true /\ ld s = None /\ pto_count s = 2 /\ probes (sI s) = 1 /\ probes (sH s) = 2 /\
+  let s' := Recovery.run MAXEXP true s [ODgramBegin; ORecvd 1200; ODgramEnd (clk 70000)] in
+  blocked s' 1 = false /\ ld s' = Some 120000.
+Proof. vm_compute. repeat split; reflexivity. Qed.
+(* documented corner (same shape as RFC 9002 A.8): a handshaking client whose only packets in
+   flight are 0-RTT has no PTO armed and relies on the server's retransmissions *)
+Example C02_ex_client_0rtt_only_unarmed :
+  let s := Recovery.run MAXEXP true (init true false)
+             [OZeroRtt; OSent (clk 0) 0 true true; OSent (clk 0) 2 true false; OTxDone 2400;
+              ODgramBegin; ORecvd 1200; OAck (clk 20000) 0 1 0 0 0 None; ODgramEnd (clk 20000)] in
+  peer_completed s = false /\ ae_total s = 1 /\ needs_b s = false /\ ld s = None.
+Proof. vm_compute. repeat split; reflexivity. Qed.
+
+(** ** Stated, not proved (stretch): end-to-end completion under fair loss. [sim_trace] is the
+    relation "o is the trace of the scenario i on the real endpoints", [fair i] "the scenario's
+    network delivers every packet with non-zero probability and bounded delay and the
+    applications are event-driven". Observed on sampled schedules by Sys/MonC02 on every run. *)
+Definition C02_fair_loss_completes_full (sim_trace : ops -> outs -> Prop) (fair : ops -> Prop) : Prop :=
+  forall i o, fair i -> sim_trace i o -> MonC02.monitor i o = None /\ MonRecovery.monitor i o = None.
